@@ -23,7 +23,7 @@ BOUND = {
     "quick": "all 2-fix and 3-fix exact tracks on a small grid x all dyadic steps (960 temporal, 1119 spatial cases); "
              "3000 random temporal cases (2..8 fixes, step / list / reference track / npts / factor, 5 epochs incl. "
              "year and leap-day crossings); 2500 random spatial cases (2..8 fixes, repeated positions, exact and "
-             "decimal geometry); 383 straight/L-shaped tracks whose decimal length is a nominal multiple of one of 40 decimal ds (batched per ds)",
+             "decimal geometry); about 400 straight/L-shaped tracks whose decimal length is a nominal multiple of one of 40 decimal ds (batched per ds)",
     "thorough": "same exhaustive part; 300000 random temporal and 250000 random spatial cases with 2..12 fixes; "
                 "every decimal (L, ds) pair L = 0.01..30.00 (step 0.01 up to 3, then 0.1) x 40 decimal ds where ds "
                 "nominally divides L (1952 straight / L-shaped tracks, batched per ds)",
@@ -241,7 +241,7 @@ def cases(tier, seed):
         yield c
     # three single, readable members of the "nominal multiple" family (the batches come last)
     for L, ds in ((0.63, 0.07), (7.7, 1.1), (2.6, 1.3)):
-        yield dict(kind="spatial", exact=False, fixes=_nominal_fixes(L, 0), req=dict(type="step", step=ds), api="method")
+        yield dict(kind="spatial_nominal", ds=ds, lengths=[L])     # = straight track (0,0) -> (L,0), step ds
     nt, ns, nmax = (3000, 2500, 8) if tier == "quick" else (300000, 250000, 12)
     nominal = list(_nominal_multiples(tier, random.Random(seed + 1)))
     for i in range(max(nt, ns)):
